@@ -409,6 +409,18 @@ func runC18h(cfg absnfs.RateLimiterConfig, tcp bool, calls []hCall, kind string,
 }
 
 func genC18h(r *Rand, idx int, tier string) Case {
+	if r.Chance(12) { // over TCP: one connection floods past its per-connection burst, then fresh clients
+		cfg := connFloodCfg(r)
+		var calls []hCall
+		n := 15 + r.Intn(50)
+		for i := 0; i < n; i++ {
+			calls = append(calls, hCall{dt: 0, ip: 0, conn: 0, proc: pPlain, plain: PickStr(r, "NULL", "GETATTR")})
+		}
+		for k := 0; k < 2+r.Intn(2); k++ {
+			calls = append(calls, hCall{dt: 0, ip: uint64(1 + k%2), conn: uint64(1 + k), proc: pPlain, plain: "NULL"})
+		}
+		return runC18h(cfg, true, calls, "tcp-conn-flood", idx)
+	}
 	tcp := r.Chance(35)
 	cfg := absnfs.RateLimiterConfig{
 		GlobalRequestsPerSecond:        PickInt(r, 3, 5, 10, 1000, 1000),
@@ -524,5 +536,16 @@ func corpusC18h() []Case {
 	tc = append(tc, hCall{dt: 0, ip: 1, conn: 1, proc: pMnt}, hCall{dt: 0, ip: 1, conn: 1, proc: pMnt}, hCall{dt: 0, ip: 1, conn: 1, proc: pMnt},
 		hCall{dt: 3 * sec, ip: 0, conn: 0, proc: pReaddir, cookie: 7, count: 512}, hCall{dt: 0, ip: 0, conn: 2, proc: pPlain, plain: "NULL"})
 	cs = append(cs, runC18h(t, true, tc, "tcp-request-then-mount", 3))
+	// over TCP, the numbers of the flood demo: global 5, per-IP 1000/1000, per-connection 1/s burst 2
+	cf := base
+	cf.GlobalRequestsPerSecond, cf.PerIPRequestsPerSecond, cf.PerIPBurstSize = 5, 1000, 1000
+	cf.PerConnectionRequestsPerSecond, cf.PerConnectionBurstSize = 1, 2
+	var fl []hCall
+	for i := 0; i < 200; i++ {
+		fl = append(fl, hCall{dt: 0, ip: 0, conn: 0, proc: pPlain, plain: "NULL"})
+	}
+	fl = append(fl, hCall{dt: 0, ip: 1, conn: 1, proc: pPlain, plain: "NULL"}, hCall{dt: 0, ip: 2, conn: 2, proc: pPlain, plain: "NULL"},
+		hCall{dt: 0, ip: 1, conn: 3, proc: pPlain, plain: "GETATTR"})
+	cs = append(cs, runC18h(cf, true, fl, "tcp-conn-flood-then-fresh-clients", 4))
 	return cs
 }
